@@ -73,7 +73,7 @@ RSCorrect(cw, ec) ==
      ELSE [ok |-> TRUE, cw |-> [i \in 1..N |-> IF i \in pos THEN cw[i] ^^ ErrVal(i) ELSE cw[i]] \o <<>>, nerr |-> L]
 
 (* ---------------- self checks (evaluated by the setup / design runs) ---------------- *)
-GFSelfCheck ==
+GFSelfCheck(dummy) ==
   /\ Len(GFExpSeq) = 255
   /\ Cardinality({GFExpSeq[i] : i \in 1..255}) = 255            \* alpha has order 255
   /\ GFExpSeq[255] # 1 /\ GFMul(GFExpSeq[255], 2) = 1
